@@ -1,4 +1,6 @@
 """C15 - decay_time returns the time at which total activity reaches the target."""
+from contracts import activation as A
+
 ID = "C15"
 LEVEL = "other"
 TRUSTED = ["oracle: A(t) = sum_i A_i(0) 2^(-t/T_i) recomputed from Sample.activity with an independent reader of the half-lives"]
@@ -6,7 +8,7 @@ EXPLANATION = "see DESIGN.md C15"
 
 
 def units(tier):
-    return []
+    return [A.U_FIND_ROOT] + A.U_DECAY_TIME + [A.U_DECAY_TIME_EMPTY, A.L_DF]
 
 
 def runner_tasks(tier):
